@@ -40,6 +40,11 @@ def norm_rel(e, truth=True):
         op, sw = _NEG[op]
         if sw:
             a, b = b, a
+    # integers: x < 1 is x <= 0 and 1 <= x is 0 < x
+    if op == 'lt' and b[0] == 'int' and b[1] == 1 and len(b) > 2 and isinstance(b[2], str) and b[2].startswith('u'):
+        op, b = 'le', ('int', 0, b[2])
+    elif op == 'le' and a[0] == 'int' and a[1] == 1 and len(a) > 2 and isinstance(a[2], str) and a[2].startswith('u'):
+        op, a = 'lt', ('int', 0, a[2])
     if op in ('eq', 'ne'):
         # unsigned comparison against zero: X != 0 is 0 < X and X == 0 is X <= 0 (one spelling for both)
         for x, y in ((a, b), (b, a)):
@@ -537,6 +542,24 @@ def is_ok_guard(c):
     return c.endswith(' is Ok') and c[:-6].endswith(')')
 
 
+def path_guard_sets(body, bb, depth=2):
+    """guard sets under which bb is entered, one per incoming feasible edge when bb is a join (the must-hold facts at
+    a join are the intersection and may say nothing): lists of canonical relation strings"""
+    preds = [p for p in body.pred.get(bb, []) if not body.edge_infeasible(p, bb)]
+    if len(preds) <= 1 or depth <= 0:
+        return [guards_at(body, bb)]
+    out = []
+    for p in preds:
+        on_edge = set(crel(r) for r in facts_to_rels(body.facts_on_edge(p, bb)))
+        # a predecessor that is itself a join reached by plain gotos: look one level further
+        if not body.edge_facts().get((p, bb)) and len(body.pred.get(p, [])) > 1 and not body.block_writes(p):
+            for g in path_guard_sets(body, p, depth - 1):
+                out.append(sorted(set(g) | on_edge))
+        else:
+            out.append(sorted(on_edge))
+    return out
+
+
 def int_width(ty):
     m = re.match(r'^[ui](\d+)$', ty)
     if m:
@@ -593,7 +616,8 @@ def byte_pieces(body):
            any(d[0] == 'call' and mir.method_name(d[2].name) in ('with_capacity', 'new') for d in body.defs().get(l, []))]
     if len(vec) != 1:
         return None
-    seq = [(s2[1], s2[2], s2[3]) for s2 in builder_sequence(body, vec[0])]
+    # extend(&[u8]) and extend_from_slice(&[u8]) append the same bytes
+    seq = [('extend' if s2[1] == 'extend_from_slice' else s2[1], s2[2], s2[3]) for s2 in builder_sequence(body, vec[0])]
     return seq, mir.canon(body.ret_expr()) == mir.canon(body.local_expr(vec[0]))
 
 
@@ -638,6 +662,39 @@ def header_writes(prog, body, text):
     """write_all calls outside loops whose argument is the constant `text`"""
     return [c for c in body.calls if mir.method_name(c.name) == 'write_all' and body.loop_depth(c.bb) == 0 and len(c.args) == 2 and
             const_text(prog, body, body.op_expr(c.args[1])) == text]
+
+
+def sequence_elements(prog, body, operand):
+    """a Vec value described as (iteration domain, element) canonical strings when it is built element-wise from one
+    forward iteration: `I.map(closure).collect()` or `let mut v = Vec::new()/with_capacity(..); for x in I { v.push(E) }`.
+    None when the value has another shape."""
+    e = peel(body.op_expr(operand))
+    if e[0] == 'call' and mir.method_name(e[1]) == 'collect' and e[2]:
+        m = peel(e[2][0])
+        if m[0] == 'call' and mir.method_name(m[1]) == 'map' and 'Iterator' in m[1] and len(m[2]) == 2 and 'rayon' not in m[1]:
+            dom = peel(m[2][0])
+            item = mir.mk_try(('call', '<I as std::iter::Iterator>::next', (m[2][0],), None))
+            r = closure_apply(prog, m[2][1], [item])
+            if r is not None:
+                return mir.canon(dom), mir.canon(r)
+        return None
+    if operand.get('k') in ('move', 'copy') and not operand['place']['p']:
+        l = operand['place']['l']
+        # follow a whole-local move to the Vec that was built
+        for _ in range(4):
+            ds = body.defs().get(l, [])
+            if len(ds) == 1 and ds[0][0] == 'assign' and ds[0][3]['k'] == 'use' and ds[0][3]['op'].get('k') in ('move', 'copy') and not ds[0][3]['op']['place']['p']:
+                l = ds[0][3]['op']['place']['l']
+            else:
+                break
+        ds = body.defs().get(l, [])
+        if len(ds) == 1 and ds[0][0] == 'call' and mir.method_name(ds[0][2].name) in ('with_capacity', 'new') and 'Vec' in ds[0][2].name:
+            seq = builder_sequence(body, l)
+            if len(seq) == 1 and seq[0][1] == 'push' and seq[0][3] == 1:
+                doms = [mir.canon(x) for x in loop_bounds(body, seq[0][0]) if x is not None]
+                if len(doms) == 1:
+                    return doms[0], seq[0][2][0]
+    return None
 
 
 def rpo(body):
